@@ -31,7 +31,7 @@ def _jobs(chk, seeds, plans1, plans2, plans3, quick):
     if quick:
         per1, per2, per3 = 3, 2, 0
     else:
-        per1, per2, per3 = len(plans1), 40, 30
+        per1, per2, per3 = len(plans1), 8, 6
     for si in range(len(seeds)):
         # every single mutation is applied to every seed in the thorough tier; in the quick tier the
         # 49 single mutations rotate over the seeds (each is applied to ~ len(seeds)*5/49 seeds)
@@ -147,7 +147,7 @@ def run(chk, replay=None):
                            f"(job {j.get('id')}, seed #{j.get('seed')}, steps {[st['op'] for st in j.get('steps', [])]})", [j])
     chk.cov["distinct_findings"] = len(seen) + len(crashes)
     chk.assumptions += [
-        "elements up to a size bound: seeds from the test suite, <= 3 mutations, attribute values <= 70000 characters, nesting <= 32 extra levels per Nest, document <= 300000 characters",
+        "elements up to a size bound: seeds from the test suite, <= 3 mutations, attribute values <= 70000 characters, nesting <= 24 extra levels per Nest, document <= 300000 characters",
         "Qt's own XML reader/writer and DOM are trusted; a sanitizer report without a frame in /repo/src is still reported",
         "resource use is bounded by a per-document alarm and an RSS limit, not measured precisely",
     ]
